@@ -85,7 +85,7 @@ CLAIMED.update({
    technique="explicit-state BFS to a fixpoint over cache states per frame x truncation point, invariant checked in every state"),
  "C16": dict(level="model_checking", design="4.16",
    text="Exhaustive field decoding against an RFC bit-layout table: 41 header fields x 3 backgrounds x every value of fields <= 8 bits (thorough <= 16 bits) and boundary/walking-bit values of wider ones, with every other field of the same header re-read each time; payload of every layer for every header length; layer dispatch for all 65536 EtherTypes (Ethernet and VLAN level) and all 256 IPv4 protocols / IPv6 next headers through $n and the matching named property, at full length and truncated inside the selected layer; pcap global- and record-header fields. Frames reach the code through real pcap files and the real parser.",
-   note="Trusts the layout table in mc/src/pkt.rs (TCP flags = 8 control bits). Named access contradicting the selector, $11, header lengths < 5 and 802.1ad/QinQ EtherTypes are unspecified.",
+   note="Trusts the layout table in mc/src/pkt.rs (TCP flags = 8 control bits). A named layer property the selector does not select must yield null (also after $n filled the cache, and $n must be unaffected by earlier named reads). $11, header lengths < 5 and 802.1ad/QinQ EtherTypes are unspecified.",
    technique="exhaustive enumeration of field values and dispatch selectors against a layout table"),
 })
 CLAIMED.update({
